@@ -375,6 +375,7 @@ fn c07_data_v4_t0() {
 }
 
 //# harness: c07_data_v4_t2
+//# timeout: 1400
 //# props: C07 C09 C08
 //# tier: thorough
 //# encodes: layer_4::tcp::repl (PSH|ACK arm)
